@@ -41,10 +41,17 @@ def quiet():
     return contextlib.redirect_stdout(io.StringIO())
 
 
+def key_kw(k):
+    """The key argument form for a functionary: a Signer object, or for gpg keys the key id and gpg home."""
+    if k.kind == "gpg":
+        return {"gpg_keyid": k.gpg_id, "gpg_home": k.gpg_home}
+    return {"signer": k.signer}
+
+
 def start(root, k, dsse):
     import in_toto.runlib as rl
     with quiet():
-        rl.in_toto_record_start("st", ["m0"], signer=k.signer, use_dsse=dsse)
+        rl.in_toto_record_start("st", ["m0"], use_dsse=dsse and k.kind != "gpg", **key_kw(k))
 
 
 def make_products(prods):
@@ -59,7 +66,7 @@ STOP_KW = {}     # library-only arguments of in_toto_record_stop used by the cur
 def stop(k, prods):
     import in_toto.runlib as rl
     with quiet():
-        rl.in_toto_record_stop("st", list(prods), signer=k.signer, **STOP_KW)
+        rl.in_toto_record_stop("st", list(prods), **key_kw(k), **STOP_KW)
 
 
 def sha_of(text):
@@ -75,10 +82,14 @@ def extras_for_model(kw):
     return out
 
 
-def model_stop(prelim, key, prods, kw):
-    """The Lean `recordStop` on the abstract preliminary record: final link fields or the error class."""
-    return core.driver().call({"op": "record_stop", "key": key, "prelim": prelim, "given": extras_for_model(kw),
-                               "products": [[p, sha_of("product %s\n" % p)] for p in prods]})
+def model_stop(prelim, key, prods, kw, prelims=None):
+    """The Lean `recordStop` on the abstract preliminary record (or, for the gpg key-argument forms, `recordStopGlob` on
+    all preliminary records of the step): final link fields or the error class."""
+    req = {"op": "record_stop", "key": key, "prelim": prelim, "given": extras_for_model(kw),
+           "products": [[p, sha_of("product %s\n" % p)] for p in prods]}
+    if prelims is not None:
+        req["prelims"] = prelims
+    return core.driver().call(req)
 
 
 def link_fields(path):
@@ -303,8 +314,13 @@ def tampered_prelim(rng, res):
     STOP_KW.clear()
     import in_toto.runlib as rl
     k, other = rng.sample(W.pool(), 2)
-    dsse = rng.random() < 0.5
-    how = rng.choice(["missing", "edited", "resigned", "other_key_file", "honest"])
+    if W.gpg_available() and rng.random() < 0.3:
+        # gpg key-argument form: both keys live in the same gpg home
+        k, other = W.gpg_key("no_sub"), W.gpg_key("no_sub2")
+        if rng.random() < 0.5:
+            k, other = other, k
+    dsse = rng.random() < 0.5 and k.kind != "gpg"
+    how = rng.choice(["missing", "edited", "resigned", "other_key_file", "honest", "duplicated"])
     root = tempfile.mkdtemp(prefix="verif-c12t-")
     cwd = os.getcwd()
     try:
@@ -316,6 +332,8 @@ def tampered_prelim(rng, res):
             start(root, other, dsse)        # only the other key's preliminary record exists
         else:
             start(root, k, dsse)
+        if how == "duplicated":
+            start(root, other, dsse)        # a second preliminary record of the same step, by the other key
         make_products(prods)
         if how == "missing":
             os.remove(pre)
@@ -329,7 +347,11 @@ def tampered_prelim(rng, res):
             from in_toto.models.metadata import Metadata
             md = Metadata.load(pre)
             md.signatures = []
-            md.create_signature(other.signer)
+            if other.kind == "gpg":
+                from in_toto.models._signer import GPGSigner
+                md.create_signature(GPGSigner(keyid=other.gpg_id, homedir=other.gpg_home))
+            else:
+                md.create_signature(other.signer)
             md.dump(pre)
         before = sorted(os.listdir(root))
         try:
@@ -340,18 +362,25 @@ def tampered_prelim(rng, res):
             outcome_class = W.exc_class(e)
         after = sorted(os.listdir(root))
         mats = [["m0", sha_of("material\n")]]
-        prelim = {"missing": None, "other_key_file": None,
+        own = {"materials": mats, "signer": k.keyid, "intact": True}
+        others = {"materials": mats, "signer": other.keyid, "intact": True}
+        prelim = {"missing": None, "other_key_file": None, "duplicated": own,
                   "edited": {"materials": mats, "signer": k.keyid, "intact": False},
-                  "resigned": {"materials": mats, "signer": other.keyid, "intact": True},
-                  "honest": {"materials": mats, "signer": k.keyid, "intact": True}}[how]
-        mm = model_stop(prelim, k.keyid, prods, {})
+                  "resigned": others, "honest": own}[how]
+        # the gpg forms look for the preliminary record by step name: every such file counts
+        prelims = None
+        if k.kind == "gpg":
+            prelims = {"missing": [], "other_key_file": [others], "duplicated": [own, others],
+                       "edited": [prelim], "resigned": [prelim], "honest": [prelim]}[how]
+        mm = model_stop(prelim, k.keyid, prods, {}, prelims)
         m = "ok" if "ok" in mm else mm["err"]
         agreed = (outcome == "ok") == (m == "ok") and (outcome == "ok" or outcome_class == m)
         res.case({"prelim": how, "key": k.kind, "dsse": dsse, "outcome": outcome}, True, agreed, sample_cap=2)
         res.count("prelim_" + how)
         if not agreed:
             res.fail("disagree", {"op": "stop_tampered", "how": how}, {"op": "recordStop", "impl": outcome, "model": mm})
-        if how != "honest":
+        harmless = how == "honest" or (how == "duplicated" and k.kind != "gpg")
+        if not harmless:
             if outcome == "ok":
                 res.fail("oracle", {"op": "stop_tampered", "how": how, "key": k.kind, "dsse": dsse},
                          {"why": "stop succeeded although the preliminary record is %s" % how})
